@@ -26,7 +26,7 @@ impl builtins::Command for AliasCommand {
 
         if self.print || self.aliases.is_empty() {
             for (name, value) in context.shell.aliases() {
-                writeln!(context.stdout(), "alias {name}='{value}'")?;
+                writeln!(context.stdout(), "alias {name}={}", single_quote(value))?;
             }
         } else {
             for alias in &self.aliases {
@@ -38,7 +38,7 @@ impl builtins::Command for AliasCommand {
                         .aliases_mut()
                         .insert(name.to_owned(), unexpanded_value.to_owned());
                 } else if let Some(value) = context.shell.aliases().get(alias) {
-                    writeln!(context.stdout(), "alias {alias}='{value}'")?;
+                    writeln!(context.stdout(), "alias {alias}={}", single_quote(value))?;
                 } else {
                     writeln!(
                         context.stderr(),
@@ -52,4 +52,10 @@ impl builtins::Command for AliasCommand {
 
         Ok(exit_code)
     }
+}
+
+/// Wraps the given string in single quotes, so that it re-reads as the original text; an
+/// embedded single quote is written as `'\''`.
+fn single_quote(s: &str) -> String {
+    std::format!("'{}'", s.replace('\'', "'\\''"))
 }
